@@ -248,6 +248,7 @@ func (w *nodeWorld) nodeOptions() (string, []Option) {
 				DecayInterval:     time.Second,
 				DecayToZero:       0.01,
 				RetainScore:       time.Duration(p.ki("retain_score_s", 10)) * time.Second,
+				SeenMsgTTL:        time.Duration(p.ki("score_seen_ttl_ms", 0)) * time.Millisecond,
 				Topics:            map[string]*TopicScoreParams{},
 			}
 			if bw := p.k("behaviour_weight", 0); bw != 0 {
@@ -595,8 +596,14 @@ func (w *nodeWorld) exec1(it Item) {
 		w.fsend(it, rpcSub(w.topicName(it.a(1)), false))
 	case "graft":
 		w.fsend(it, rpcGraft(w.topicName(it.a(1))))
-	case "prune": // [idx, topic, backoff_s]
-		w.fsend(it, rpcPrune(w.topicName(it.a(1)), uint64(it.a(2)), nil))
+	case "prune": // [idx, topic, backoff_s, number of (unsigned) peer-exchange records]
+		var px []*pb.PeerInfo
+		for k := int64(0); k < it.a(3); k++ {
+			kr := newPrng(w.plan.Seed, fmt.Sprintf("pxghost%d", k))
+			id, _ := peer.IDFromPrivateKey(genKey(kr, 0))
+			px = append(px, &pb.PeerInfo{PeerID: []byte(id)})
+		}
+		w.fsend(it, rpcPrune(w.topicName(it.a(1)), uint64(it.a(2)), px))
 	case "pub", "pubdup": // [idx, topic, size] valid message authored by the fake (pubdup: twice in one RPC)
 		if fp := w.fake(int(it.a(0))); fp != nil && fp.outAlive() {
 			m := w.newMsg(fp, w.topicName(it.a(1)), w.mkData(int(it.a(2))))
